@@ -89,7 +89,7 @@ def job_axioms(names, name, which, tier):
                         reg = c02.regimes(g, ins[g.rep:], p.pc, asm)
                         if any(r[0] == "series" for r in reg.values()):
                             v = c02.series_roundtrip(term, g, ins[g.rep:], reg, res)
-            except T.PolyTooBig:
+            except (T.PolyTooBig, MemoryError):
                 v = solver.Verdict("undecided", "normal form too large / time budget")
             if v.status == "violated":
                 w = axiom_witness(h, fn, which, g, sampler, k)
